@@ -22,7 +22,7 @@ RULE = (
     "distinct trace levels, or a None / argnums= / 'same' registration; checkpoint at order >= 2; distinct by configuration."
 )
 
-VJP_APIS = ["defvjp", "defvjp_none", "defvjp_argnums_kw", "defvjp_argnum", "defvjp_argnums"]
+VJP_APIS = ["defvjp", "defvjp_none", "defvjp_argnums_kw", "defvjp_argnum", "defvjp_argnums", "no_vjp"]
 JVP_APIS = ["defjvp", "defjvp_none", "defjvp_argnum", "def_linear", "defjvp_same", "none"]
 
 
@@ -82,6 +82,7 @@ def prim_body(c):
         levels[c.int(0, n - 1)] = "inner"
     same_var = n >= 2 and c.chance(1, 4)  # the same traced value in two positions
     vseed = c.seed()
+    sibling = c.chance(1, 4)  # another primitive wrapping the SAME Python function, with rules of its own, registered first
     (al, ga, be), _ = values.generic(vseed, [(n,), (n,), (n,)], 0.4, 1.6)
     alpha = [al[i] if levels[i] in ("outer", "both") else 0.0 for i in range(n)]
     gamma = [ga[i] if levels[i] in ("inner", "both") else 0.0 for i in range(n)]
@@ -92,9 +93,17 @@ def prim_body(c):
     t10, t20 = 0.7, 1.1
     LOG = []
 
-    @primitive
-    def p(*args, k=1.0):
+    def raw_p(*args, k=1.0):
         return poly(list(args), k, cs, ds)
+
+    if sibling:
+        # rules are registered per primitive object: what is registered for this wrapper (unrelated, wrong derivatives) and for a
+        # checkpointed wrapper of the same function must not be visible through p
+        q = primitive(raw_p)
+        defvjp(q, *[(lambda ans, *args, k=1.0: lambda g: g * 123.456) for _ in range(n)])
+        defjvp(q, *[(lambda g, ans, *args, k=1.0: g * 123.456) for _ in range(n)])
+        autograd.checkpoint(raw_p)
+    p = primitive(raw_p)
 
     def vjp_maker(i):
         def maker(ans, *args, k=1.0):
@@ -130,6 +139,8 @@ def prim_body(c):
             return lambda g: tuple(g * dpoly(a_, list(args), kwargs.get("k", 1.0), cs, ds) for a_ in argnums)
         defvjp_argnums(p, vjp_argnums)
     jreg = list(reg)
+    if vapi == "no_vjp":
+        reg = ["missing"] * n  # no reverse-mode rule registered at all: every reverse-mode request must raise
     if japi == "defjvp":
         jreg = ["rule" if r == "none" else r for r in reg]
     if japi in ("defjvp_argnum", "def_linear"):
